@@ -41,7 +41,7 @@ Proof. exact c02_peek_then_read_lemma. Qed.
    full: a data segment never meets a full channel (so nothing accepted is
    discarded at the receiver), because credits + unread data segments never
    exceed tcp_capacity; and try_write reports WouldBlock exactly when the writer
-   has no credit. *)
+   has no credit and the connection was not reset. *)
 Theorem c02_no_overflow : forall cap lo es y k sg,
   let s := final (init cap lo) es in
   sk (eps s y) = Some k -> rd (eps s y) <> None ->
@@ -57,8 +57,16 @@ Proof. exact c02_credits_lemma. Qed.
 
 Theorem c02_wouldblock_iff : forall s x bs,
   wr (eps s x) = Some false -> bs <> [] ->
-  (snd (step s (TryWrite x bs)) = RErr WouldBlock <-> cred s x = 0).
+  (snd (step s (TryWrite x bs)) = RErr WouldBlock <-> cred s x = 0 /\ sk (eps s x) <> None).
 Proof. exact c02_wouldblock_lemma. Qed.
+
+(* A writer that waits for credits does not stay blocked after the connection was reset:
+   once the socket entry is gone (RST received, local reset) no write pends or reports
+   WouldBlock any more (fix e5646f9; the wake-up of the parked task is tokio's part). *)
+Theorem c02_reset_unblocks : forall s x bs pf,
+  sk (eps s x) = None ->
+  snd (op_try_write pf s x bs) <> RPending /\ snd (op_try_write pf s x bs) <> RErr WouldBlock.
+Proof. exact c02_reset_unblocks_lemma. Qed.
 
 (* Delivery.  In every reachable state in which direction x was never cut off,
    none of its segments is in flight any more, the writer has shut down or
@@ -113,5 +121,6 @@ Print Assumptions c02_peek_then_read.
 Print Assumptions c02_no_overflow.
 Print Assumptions c02_credits.
 Print Assumptions c02_wouldblock_iff.
+Print Assumptions c02_reset_unblocks.
 Print Assumptions c02_complete.
 Print Assumptions c02_nonvacuous.
